@@ -42,6 +42,9 @@ DRIVER = "drv_c08"
 RULE = ("scenario = (hop count 1..3, attacked position, attacker kind {network on a plaintext link, malicious relay, "
         "other responder}, manipulation, follow-up {none, genuine after, genuine before}) enumerated as a cross product "
         "plus replays of all handshake cells before/after cache expiry, late answers at the relay after a retry, "
+        "API re-targets of a pending hop, rewritten/forged CREATEs (incl. towards the originator under its own id), a next "
+        "hop squatting on the relay's outgoing circuit id, several nodes originating at once, required exits on "
+        "multi-hop circuits, "
         "remove_tunnel_delay in {0, default}, seeded random schedules (reorder/duplicate/drop/late/timeouts/API "
         "retries/two circuits); a case = one "
         "delivered cell or timeout sweep or API call; distinct = distinct (scenario descriptor, step index); "
@@ -61,6 +64,10 @@ ASSUMPTIONS = [
     "fresh ephemerals/identifiers: the originator draws a new ephemeral per attempt (checked on every run: "
     "a repeated ephemeral is reported as a correspondence disagreement)",
     "16-bit identifier collisions are inputs of the model (theorems cover them through the MAC check)",
+    "joined-side stability (Props section 6) is about the eleven modelled events; explicit removals of exit sockets / "
+    "relay routes (destroy, inactivity sweep, unload) are not events of this model (C05/C09/C11)",
+    "a node that also relays: the .created rejection theorems assume its CreateRequestCache does not claim the "
+    "identifier (the relay branch of on_created is tried first); accept_requires needs no such assumption",
 ]
 
 FORWARD, BACKWARD = 0, 1
@@ -314,7 +321,7 @@ class World:
         self.established = {}    # (cid, k) -> responder end of a hop accepted with genuine material
         self.nongenuine = set()  # circuits with a hop accepted on non-genuine material (no agreement expected)
         self.tampered = False    # the harness altered / forged / redirected something (else: delays, drops, replays only)
-        self.slice = 5.0 if nht is None else min(5.0, 0.9 * nht)
+        self.slice = 5.0   # recomputed from the nodes' settings below
         self.sym = Sym(self.rt, self.OpenSSLSK)
         st = self.tn.PEER_FLAG_SPEED_TEST
         flags = [{self.tn.PEER_FLAG_RELAY, st}]
@@ -338,6 +345,14 @@ class World:
             self.sym.reg_static(i + 1, n.my_peer.key)
             self.tracked[i] = []
         self.sym.keylog_pos = len(KEYLOG)
+        # cache lifetimes, read from the running code: retry cache (next_hop_timeout), created cache (unstable_timeout),
+        # create cache (RandomNumberCache default).  A slice is shorter than half the shortest lifetime.
+        from ipv8.requestcache import NumberCache
+        self.life_retry = float(self.nodes[0].overlay.settings.next_hop_timeout)
+        self.life_created = max(float(n.overlay.settings.unstable_timeout) for n in self.nodes)
+        self.life_create = float(NumberCache.timeout_delay.fget(None)) if isinstance(NumberCache.timeout_delay, property) \
+            else 10.0
+        self.slice = 0.45 * min(self.life_retry, self.life_created, self.life_create)
         self.prefix = self.nodes[0].overlay.get_prefix()
         self.addr_idx = {}
         for i, n in enumerate(self.nodes):
@@ -843,6 +858,14 @@ class World:
         self.ctx.case((self.desc, self.step_no), True)
         return res
 
+    def t_retry(self) -> float:
+        """just past the lifetime of a retry cache / create cache"""
+        return max(self.life_retry, self.life_create) + 0.2
+
+    def t_created(self) -> float:
+        """just past the lifetime of a created cache"""
+        return self.life_created + 1.0
+
     async def advance(self, dt: float):
         """let dt virtual seconds pass in slices shorter than any cache lifetime (a cache created inside a slice
         cannot expire in the same slice, so each slice sees every expiry exactly once)"""
@@ -884,7 +907,9 @@ class World:
                     for k, t, q in self.sent:
                         if k == 0 and getattr(q, "circuit_id", None) == i and self.attempts.get(i):
                             self.attempts[i][-1]["expired"] = False
-                    self._record(f"{idx} timeout {i} {self.env_s(idx, i)}", None)
+                    outs = ",".join(self.out_s(t, q) for k, t, q in self.sent
+                                    if k == idx and getattr(q, "circuit_id", None) == i)
+                    self._record(f"{idx} timeout {i} {self.env_s(idx, i)}", ("outs", f"[{outs}]"))
                 elif pre == "create":
                     self._record(f"{idx} createexpire {i}", None)
                 else:
@@ -1004,29 +1029,36 @@ def manipulate(w: World, rng, manip: str, created, X: bytes):
 
 
 # ------------------------------------------------------------------------------------------------------------------
+def r_idx_of(w, h):
+    return h.dst
+
+
 async def build_world(ctx, rng, desc, n_relays=3, n_exits=2):
     w = World(ctx, rng, n_relays, n_exits, desc, rtd=desc.get("rtd", 0), nht=desc.get("nht"))
     await w.introduce()
     return w
 
 
-def pick_required_exit(w: World, rng):
-    exits = [n for n, fl in zip(w.nodes, w.flags) if w.tn.PEER_FLAG_EXIT_BT in fl]
+def pick_required_exit(w: World, rng, exclude=None):
+    exits = [n for i, (n, fl) in enumerate(zip(w.nodes, w.flags)) if w.tn.PEER_FLAG_EXIT_BT in fl and i != exclude]
     return rng.choice(exits).my_peer
 
 
-async def start_circuit(w: World, hops: int, required_exit=None):
-    ov = w.nodes[0].overlay
+async def start_circuit(w: World, hops: int, required_exit=None, idx: int = 0):
+    ov = w.nodes[idx].overlay
+    if required_exit is None and hops > 1 and w.desc.get("req"):
+        required_exit = pick_required_exit(w, w.rng, exclude=idx)
+        w.ctx.count("required-exit:multi-hop")
 
     def line(c):
         if c is None:
             return None
-        w.track(0, [c.circuit_id])
+        w.track(idx, [c.circuit_id])
         cache = ov.request_cache.get("retry", c.circuit_id)
         first = [w.peer_sym(c.unverified_hop.peer)] + [w.peer_sym(p) for p in cache.candidates]
         req = w.peer_sym(c.required_exit) if c.required_exit else "-"
-        return (f"0 cc {c.circuit_id} {hops} {req} [{','.join(map(str, first))}] "
-                f"{w.env_s(0, c.circuit_id)}")
+        return (f"{idx} cc {c.circuit_id} {hops} {req} [{','.join(map(str, first))}] "
+                f"{w.env_s(idx, c.circuit_id)}")
     return await w.api(lambda: ov.create_circuit(hops, required_exit=required_exit), line)
 
 
@@ -1119,7 +1151,7 @@ async def sc_tamper(ctx, rng, desc, hops, pos, manip, follow):
             return None
         await run_fifo(w, 80, on_msg)
         if follow == "none" and rng.random() < 0.5:
-            await w.advance(10.2)
+            await w.advance(w.t_retry())
             await run_fifo(w, 80)
         await w.finish()
         return w
@@ -1145,7 +1177,7 @@ async def sc_late(ctx, rng, desc, hops, pos, variant):
                     return "handled"
             return None
         await run_fifo(w, 80, on_msg)
-        await w.advance(10.2)
+        await w.advance(w.t_retry())
         if held:
             h = held[0]
             data = None
@@ -1268,8 +1300,136 @@ async def sc_api_retarget(ctx, rng, desc, hops, pos, order):
                 await run_fifo(w, 80, overtake)
         await run_fifo(w, 80)
         if rng.random() < 0.5:
-            await w.advance(10.2)
+            await w.advance(w.t_retry())
             await run_fifo(w, 80)
+        await w.finish()
+        return w
+    finally:
+        await w.close()
+
+
+async def sc_id_squat(ctx, rng, desc, hops, pos, order):
+    """misbehaving next hop (or anyone reading the plaintext CREATE on that link): the relay's fresh outgoing circuit id
+    is re-used as the id of a circuit of the attacker's own that runs through the same relay; the attacker's circuit is
+    then extended so that the relay pairs a second CREATED under that id"""
+    w = await build_world(ctx, rng, desc)
+    try:
+        await start_circuit(w, hops)
+        held = []
+        n_created = [0]
+
+        async def on_msg(h: Held):
+            if h.kind == 3 and not held:
+                n_created[0] += 1
+                if n_created[0] == pos and h.dst != 0:
+                    held.append(h)
+                    return "handled"
+            return None
+        await run_fifo(w, 80, on_msg)
+        if held:
+            gen = held[0]
+            a_idx, r_idx, to_cid = gen.from_idx, gen.dst, gen.cid
+            aov = w.nodes[a_idx].overlay
+            w.tampered = True
+            w.track(a_idx, [to_cid])
+
+            def mk():
+                circ = w.tn.Circuit(to_cid, 2)
+                aov.circuits[to_cid] = circ
+                aov.send_initial_create(circ, [w.nodes[r_idx].my_peer], 6)
+                return circ
+
+            def line(_):
+                return f"{a_idx} cc {to_cid} 2 - [{r_idx + 1}] {w.env_s(a_idx, to_cid)}"
+            await w.api(mk, line)
+            second = []
+
+            async def hold_second(h: Held):
+                # the CREATED answering the attacker's own extension through the relay
+                if h.kind == 3 and h.dst == r_idx and not second:
+                    second.append(h)
+                    return "handled"
+                return None
+            await run_fifo(w, 80, hold_second)
+            ctx.count("squat:" + order + (":second-created" if second else ":no-second"))
+            if order == "victim-first":
+                await w.deliver(gen)
+                await run_fifo(w, 80, hold_second)
+                for h in second:
+                    await w.deliver(h)
+            elif order == "attacker-first":
+                for h in second:
+                    await w.deliver(h)
+                await w.deliver(gen)
+            else:  # the attacker never completes its own extension, only squats on the id
+                await w.deliver(gen)
+        await run_fifo(w, 120)
+        await w.finish()
+        return w
+    finally:
+        await w.close()
+
+
+async def sc_forged_create(ctx, rng, desc, hops, pos, variant):
+    """the CREATE itself is attacked: rewritten on its (plaintext) link, or forged towards the originator under the
+    originator's own circuit id"""
+    w = await build_world(ctx, rng, desc)
+    try:
+        c = await start_circuit(w, hops)
+        n_create = [0]
+
+        async def on_msg(h: Held):
+            if h.kind == 2:
+                n_create[0] += 1
+                if n_create[0] == pos and variant != "own-cid-to-originator":
+                    cid, ident, npk, key = w.parse_create(h.data)
+                    if variant == "key-short":
+                        key = key[:31]
+                    elif variant == "key-zero":
+                        key = b"\x00" * 32
+                    elif variant == "key-swap":
+                        key = w.new_attacker_key().get_crypt_pk()
+                    elif variant == "key-flip-bit255":
+                        key = flip(key, 255)
+                    elif variant == "ident-change":
+                        ident = (ident + 1 + rng.randrange(100)) & 0xFFFF
+                    ctx.count("forged-create:" + variant)
+                    await w.deliver(h, data=w.build_create(cid, ident, npk, key))
+                    if rng.random() < 0.5:
+                        await w.deliver(h)          # the genuine CREATE follows
+                    return "handled"
+            return None
+        await run_fifo(w, 120, on_msg)
+        if variant == "own-cid-to-originator" and c is not None and c.hops:
+            first = c.hops[0].peer
+            a = w.new_attacker_key()
+            data = w.build_create(c.circuit_id, rng.randrange(0xFFFF), first.public_key.key_to_bin(), a.get_crypt_pk())
+            ctx.count("forged-create:" + variant)
+            await w.deliver(Held(first.address, 0, data, 0, 2, c.circuit_id, w.addr_idx.get(first.address, -1)), data=data)
+            await run_fifo(w, 40)
+        if rng.random() < 0.5:
+            await w.advance(w.t_retry())
+            await run_fifo(w, 80)
+        await w.finish()
+        return w
+    finally:
+        await w.close()
+
+
+async def sc_two_originators(ctx, rng, desc, hops, shuffle):
+    """all honest: node 0 and a relay node both originate circuits at the same time, through each other"""
+    w = await build_world(ctx, rng, desc)
+    try:
+        circuits = [await start_circuit(w, hops)]
+        other = rng.choice([1, 2, 3])
+        await start_circuit(w, rng.choice([2, 3]), idx=other)
+        if rng.random() < 0.5:
+            await start_circuit(w, 2, idx=rng.choice([i for i in (1, 2, 3) if i != other]))
+        steps = 0
+        while w.pending and steps < 200:
+            steps += 1
+            await w.deliver(w.pending.pop(rng.randrange(len(w.pending)) if shuffle and rng.random() < 0.4 else 0))
+        final_honest_checks(w, [c for c in circuits if c is not None], expect_ready=True)
         await w.finish()
         return w
     finally:
@@ -1383,7 +1543,7 @@ async def sc_relay(ctx, rng, desc, hops, pos, variant):
             return None
         await run_fifo(w, 120, on_msg)
         if rng.random() < 0.4:
-            await w.advance(10.2)
+            await w.advance(w.t_retry())
             await run_fifo(w, 80)
         await w.finish()
         return w
@@ -1414,9 +1574,9 @@ async def sc_cipher_noise(ctx, rng, desc, hops):
             else:
                 await w.deliver(h)
             if rng.random() < 0.05:
-                await w.advance(10.2)
+                await w.advance(w.t_retry())
         if rng.random() < 0.5:
-            await w.advance(10.2)
+            await w.advance(w.t_retry())
             await run_fifo(w, 100)
         await w.finish()
         return w
@@ -1446,10 +1606,10 @@ async def sc_replay_expired(ctx, rng, desc, hops, variant):
             await w.flush()
         if variant in ("early-and-late", "two-circuits"):
             await replay_all("all")
-        await w.advance(61.0)
+        await w.advance(w.t_created())
         await replay_all("creates" if variant == "creates-only" else "to-joined" if variant == "to-joined" else "all")
         if rng.random() < 0.5:
-            await w.advance(10.2)
+            await w.advance(w.t_retry())
             await replay_all("creates")
         await w.finish()
         return w
@@ -1494,7 +1654,7 @@ async def sc_relay_late(ctx, rng, desc, hops, pos):
             await run_fifo(w, 80)
             if held:
                 if moment == "after-delay":
-                    await w.advance(5.5)
+                    await w.advance(w.nodes[r_idx_of(w, held[0])].overlay.settings.remove_tunnel_delay + 0.5)
                 await w.deliver(held[0])
         if held and desc.get("twice"):
             await w.deliver(held[0])
@@ -1545,8 +1705,8 @@ async def sc_random(ctx, rng, desc):
             else:
                 await w.deliver(h)
             if rng.random() < 0.06:
-                await w.advance(rng.choice([3.0, 10.2, 10.2, 61.0]))
-        await w.advance(10.2)
+                await w.advance(rng.choice([0.3 * w.t_retry(), w.t_retry(), w.t_retry(), w.t_created()]))
+        await w.advance(w.t_retry())
         await run_fifo(w, 60)
         await w.finish()
         return w
@@ -1589,6 +1749,24 @@ def scenario_list(ctx: Ctx, tier: str):
             for order in ("old-first", "new-first", "old-twice", "overtake"):
                 out.append({"k": "api-retarget", "hops": hops, "pos": pos, "order": order})
             out.append({"k": "api-retarget", "hops": hops, "pos": pos, "order": "old-first", "same": True})
+        for pos in range(1, hops + 1):
+            for v in ("key-short", "key-zero", "key-swap", "key-flip-bit255", "ident-change"):
+                out.append({"k": "forged-create", "hops": hops, "pos": pos, "variant": v})
+        out.append({"k": "forged-create", "hops": hops, "pos": 1, "variant": "own-cid-to-originator"})
+        out.append({"k": "two-originators", "hops": hops, "shuffle": False})
+        out.append({"k": "two-originators", "hops": hops, "shuffle": True})
+        if hops > 1:
+            out.append({"k": "honest", "hops": hops, "req": True})
+            out.append({"k": "honest", "hops": hops, "req": True, "shuffle": True})
+            out.append({"k": "late", "hops": hops, "pos": hops, "variant": "as-is", "req": True})
+            out.append({"k": "api-retarget", "hops": hops, "pos": hops, "order": "old-first", "req": True})
+            out.append({"k": "relay-late", "hops": hops, "pos": hops, "moment": "after-ready", "rtd": None, "nht": 3,
+                        "req": True})
+            out.append({"k": "tamper", "hops": hops, "pos": hops, "manip": "eph-subst-remac", "follow": "genuine-after",
+                        "req": True})
+        for pos in range(2, hops + 1):
+            for order in ("victim-first", "attacker-first", "squat-only"):
+                out.append({"k": "id-squat", "hops": hops, "pos": pos, "order": order})
         for v in ("creates-only", "to-joined", "all", "shuffled", "early-and-late", "two-circuits"):
             out.append({"k": "replay-expired", "hops": hops, "variant": v})
         for pos in range(2, hops + 1):
@@ -1632,6 +1810,12 @@ async def run_scenario(ctx, d: dict, sub_seed: int):
         return await sc_cipher_noise(ctx, rng, desc, d["hops"])
     if k == "api-retarget":
         return await sc_api_retarget(ctx, rng, desc, d["hops"], d["pos"], d["order"])
+    if k == "forged-create":
+        return await sc_forged_create(ctx, rng, desc, d["hops"], d["pos"], d["variant"])
+    if k == "two-originators":
+        return await sc_two_originators(ctx, rng, desc, d["hops"], d["shuffle"])
+    if k == "id-squat":
+        return await sc_id_squat(ctx, rng, desc, d["hops"], d["pos"], d["order"])
     if k == "replay-expired":
         return await sc_replay_expired(ctx, rng, desc, d["hops"], d["variant"])
     if k == "relay-late":
@@ -1683,6 +1867,11 @@ def run_all(ctx: Ctx, scenarios: list[tuple[dict, int]], use_model: bool):
                     ctx.disagree(f"driver rejected line `{ln}`", {"scenario": desc, "line": ln})
                 continue
             n_cmp += 1
+            if isinstance(impl, tuple):      # compare the emitted messages only (state is compared by the next line)
+                if model.split(" | ", 1)[0] != impl[1]:
+                    ctx.disagree(f"model emits {model.split(' | ', 1)[0]!r} != implementation {impl[1]!r} on `{ln}`",
+                                 {"scenario": desc, "line": ln, "model": model, "impl": impl[1]})
+                continue
             if model != impl:
                 ctx.disagree(f"model {model!r} != implementation {impl!r} on `{ln}`",
                              {"scenario": desc, "line": ln, "model": model, "impl": impl})
